@@ -97,6 +97,13 @@ NA = {
  "C29": "compares interpreter types with the answers of reflect and go/types (size, alignment, method sets, assignability): the oracle is two large libraries that would have to be specified (DESIGN.md section 5 C29, C30)",
  "C30": "graph-to-graph converter over the whole go/types object model with 'printed form matches' as oracle (DESIGN.md section 5 C29, C30)",
  "C35": "'behaves like textual specialisation' is whole-program; memoisation keys are canonical type pointers whose canonicity is C29 (DESIGN.md section 5 C35)",
+ "C03": "not built. The run-time converters of fast/convert.go hand the conversion to reflect.Value.Convert; a contract would state, per target kind, that the closure reads the result through the accessor of that kind and narrows it to the kind - with reflect's Convert assumed to be Go's conversion, which is the substance of the property. The compile-time side (base/untyped Lit.Convert) is arbitrary-precision arithmetic on go/constant values, which the engine's machine-integer / IEEE model does not cover. Nothing is claimed (DESIGN.md section 5 C03)",
+ "C04": "not built. Untyped constant arithmetic is go/constant and math/big arithmetic on unbounded integers and rationals: the engine models machine integers and IEEE floats only; the dispatch around it (BinaryExprUntyped) reads package-level token tables whose initial values the engine does not know. Nothing is claimed (DESIGN.md section 5 C04, section 0.7)",
+ "C08": "not built. Index, slice, composite-literal and builtin closures work through reflect.Value on containers of interpreted types (reflect.MakeSlice, MapIndex, Append, Copy): contracts would restate package reflect for containers; only the scalar cell model of reflect is specified in the engine. Nothing is claimed (DESIGN.md section 5 C08)",
+ "C31": "not built. The import tables are generated init functions with tens of thousands of map entries; 'each name is bound to the symbol of that name' is a syntactic scan of those literals, and the proxies forward through reflect: no function-level contract was written. Nothing is claimed (DESIGN.md section 5 C31)",
+ "C32": "not built. Marshal / Unmarshal format and parse text (strconv, big.Rat strings): the engine has no theory of string contents (strings are an ordered uninterpreted sort). Nothing is claimed (DESIGN.md section 5 C32)",
+ "C33": "technique cannot decide it: goroutine identity comes from assembly (gls/id_*.s), the registry is shared state under a spin lock, and the property quantifies over interleavings; sequential weakest preconditions have no schedules (DESIGN.md section 5 C33)",
+ "C38": "not built. A second interpreter (classic/, about 10 kLoC working entirely through reflect.Value) compared with compiled Go: no contract was written for it. Nothing is claimed (DESIGN.md section 5 C38)",
  "C39": "the oracle is the Go toolchain compiling and running the written file (DESIGN.md section 5 C39)",
 }
 
